@@ -86,7 +86,7 @@ func init() {
 		}
 		r.Phase("score sequences", func() { scoreSequences(r, 2, 0); scoreSequences(r, 2, 1) })
 		r.Phase("higher levels queried first", func() { topFirstSweep(r, 2, 0); topFirstSweep(r, 2, 1) })
-		r.Phase("first use in fresh processes", func() { firstUseScores(r, 2, 0) })
+		r.Phase("first use in fresh processes", func() { firstUseScores(r, 2, 0); historyVariantsFor(r, 2, 0) })
 		st.report(r, 2)
 		r.Set("oracle_exact_ties", int64(oracle.GetV2().Ties))
 		r.Set("exhaustive", true)
@@ -330,7 +330,7 @@ func init() {
 			dpathSliceV2(r, P, st, func(gi int) bool { return gi%480 == 0 })
 		}
 		r.Phase("score sequences", func() { scoreSequences(r, 2, 2) })
-		r.Phase("first use in fresh processes", func() { firstUseScores(r, 2, 2) })
+		r.Phase("first use in fresh processes", func() { firstUseScores(r, 2, 2); historyVariantsFor(r, 2, 2) })
 		st.report(r, 2)
 		r.Set("oracle_exact_ties", int64(oracle.GetV2().Ties))
 		r.Set("exhaustive", true)
